@@ -340,6 +340,7 @@ def run(ctx):
     LK = ctx.sval(like)
     d_ike = ('param', dict_param(like, 1))
     calls = LK.calls_to(callee='namedtuple.IkeConfiguration')
+    own_protect_list(ctx, 'B2')
     ctx.floor('B2 IkeConfiguration(...) construction', len(calls), 1)
     for c in calls:
         kw = c.args
@@ -599,6 +600,23 @@ def check_payload_id(ctx):
         ok2 = tq.text(a_).endswith('ID_RFC822_ADDR') and tq.text(b_).endswith('ID_FQDN')
     ctx.check(ok2, 'B2', 'any other id (ip_address raised ValueError) is typed ID_RFC822_ADDR when it contains "@", else ID_FQDN, and '
               'carries the encoded text', key=('B2', '_get_payload_id', 'text'), site=ctx.site(fi, fi.node))
+
+
+def own_protect_list(ctx, rule):
+    """every connection record is built by the IkeConfiguration constructor with a `protect` list of its own (a fresh, empty list that the
+    loop then fills): a record derived from a shared template (`template._replace(...)`, a copied record) shares the template's list
+    with every other connection, and each connection would be matched against the policies of all of them"""
+    like = ctx.func(CLS + '._load_ike_conf')
+    LK = ctx.sval(like)
+    calls = LK.calls_to(callee='namedtuple.IkeConfiguration')
+    derived = [c for c in LK.calls if c.name in ('_replace', 'copy', 'deepcopy') or (isinstance(c.callee, str) and c.callee.endswith('._replace'))]
+    if not calls and derived:
+        ctx.bad(rule, (rule, 'protect-shared'), '_load_ike_conf derives the connection record from another record (`%s`): the `protect` list is '
+                'not a fresh list of this connection' % tq.text(derived[0].term, 80), ctx.site(like, derived[0].node), {})
+        return
+    for c in calls:
+        ctx.check(strip_ids(c.args.get('protect', NONE)) == ('list', ()), rule, 'each connection record gets its own, initially empty `protect` list',
+                  key=(rule, 'protect-own'), site=ctx.site(like, c.node), detail={'protect': tq.text(c.args.get('protect', NONE), 100)})
 
 
 def check_ip_loaders(ctx):
